@@ -351,6 +351,13 @@ def rule_ow_mut(cx, rep, port):
                 rep.violated(key, node, 'the object modified here can be a caller\'s source object (origin: `{}` at line {}): the query changes its input'.format(node_text(src, 80), getattr(src, 'lineno', '?')))
             elif any(a[0] == 'global' for a in atoms) and not isinstance(getattr(node, 'parent', None), ast.Module):
                 src = [a for a in atoms if a[0] == 'global'][0][1]
+                if isinstance(target, ast.Name) and getattr(fd, 'modname', None) in p.modules:
+                    from ..idioms import pure_memo_store
+                    stmt = node
+                    while stmt is not None and not isinstance(stmt, ast.stmt):
+                        stmt = getattr(stmt, 'parent', None)
+                    if stmt is not None and pure_memo_store(fd, stmt, target.id, p.module_consts(fd.modname)):
+                        continue    # filling a pure memo table (decided by GS-MODSTATE): unobservable
                 rep.violated(key, node, 'the object modified here can be (an element of) the module-level object defined by `{}`: state shared by every query in the process is changed, so a later query sees what an earlier one left behind'.format(node_text(src, 70)))
             elif any(a[0] == 'unknown' for a in atoms):
                 n_unknown += 1
@@ -533,6 +540,11 @@ def _trace_select_text(p, mod, sp, e, at, chain, depth):
         if unk:
             return unk[0]
         return True, ' / '.join(sorted({r[1] for r in results}))
+    if isinstance(e, ast.Constant) and isinstance(e.value, str):
+        t = e.value.strip()
+        if (t.startswith('[') and t.endswith(']')) or t.startswith('[].concat('):
+            return True, 'constant list display'
+        return False, 'the select fragment can be the constant text `{}`, which is not a list display: the generated program emits whatever object that expression denotes (for a star the input record\'s own field array) instead of a fresh list'.format(t)
     return None, 'select fragment expression `{}` not recognised'.format(node_text(e, 60))
 
 
